@@ -7,7 +7,7 @@ MANIFEST = dict(
     text="Partial by nature (crash-freedom of a whole Go process is not a theorem about a model of parts of it). Machine-checked "
          "(Coq 8.16.1) are the four mechanisms the property's anchors name: (1) the frame decoder is total, allocates <= 10240 bytes and "
          "never reads past its input on every byte string (C17's theorems over today's registry); (2) for EVERY Login.PoolCount and "
-         "every server maximum the channel capacity computed by NewControl is non-negative and the advance-request count is "
+         "every server maximum (negative ones included) the channel capacity computed by NewControl is non-negative and the advance-request count is "
          "min(client, max) clamped at 0 - proved over Gallina code that translator unit T8a regenerates from server/control.go on every "
          "run; (3) channel discipline of teardown/hand-off is proved in the schedule models of C11/C12/C13 (their never-crash theorems); "
          "(4) every access site of every shared table (25 tables: sessions, proxies, routes, visitor listeners, NAT-hole clients and "
@@ -17,9 +17,10 @@ MANIFEST = dict(
          "authenticated and unauthenticated, with concurrent registration/closure/group/visitor/NAT-hole traffic and a tunnel watchdog), a "
          "second barrage against a real frpc running in a child process (a scripted fake frps and fake STUN server send mutated answers on the "
          "control channel and on every work and visitor connection; watchdog: re-login, registration, bytes through the plain tcp proxy), and "
-         "a race-detector pass over same-run-id re-login / registration overlaps in both tiers.",
+         "race-detector passes (frps: same-run-id re-login / registration overlaps; frpc: re-login while old handlers log, overlapping udp work "
+         "connections, orderly shutdown) and an ssh-tunnel-gateway phase (anonymous ssh clients, adversarial exec payloads and forward requests) in both tiers.",
     note="Trusted: Coq kernel+VM; translator units T4 (syntactic, intra-procedural lock-state walk over go/ast with one level of "
-         "callee-requires-lock) and T8a (straight-line integer code of NewControl); harness transcription. Not modelled: goroutine "
+         "callee-requires-lock) and T8a (straight-line integer code of NewControl, statement by statement into lets, any local names); harness transcription. Not modelled: goroutine "
          "scheduling of the whole process, third-party libraries (yamux, quic, kcp, net/http), memory exhaustion; of the client process "
          "(frpc) only its two manager tables are in the lock theorem, the rest of it is covered by the client barrage (search). A data race outside the listed tables, or a panic in code outside the four mechanisms, "
          "can only be found by the barrage (a search, not a proof).",
@@ -31,7 +32,7 @@ def q(tier, quick, thorough):
     return quick if tier == "quick" else thorough
 
 
-DIRECTED = "stun-flood,listen-random-ports,sudp-close-under-traffic,sudp-close-under-traffic"
+DIRECTED = "stun-flood,listen-random-ports,sudp-close-under-traffic,sudp-close-under-traffic,many-proxies-drop"
 
 
 def race_build(wait=True, proc=None):
@@ -75,13 +76,22 @@ def recipe(c: Check):
                 c.cov["race_reports_frp_owned"] = st.get("race_reports_frp_owned")
                 c.cov["race_reports_chan_close_vs_send"] = st.get("race_reports_chan_close_vs_send")
                 c.cov["race_reports_outside_listed_tables"] = st.get("race_reports_outside_listed_tables")
+            # frpc under the race detector (quick and thorough): short epochs weighted towards re-logins with work-connection handlers
+            # still busy, overlapping udp work connections, orderly shutdown of the child; same rule as for frps, except the one
+            # documented Wrapper.Phase pair
+            st = c.run_driver("clientrace", q(c.tier, 280, 1500), shards=q(c.tier, 1, 4), timeout=q(c.tier, 300, 3000),
+                              env=dict(VERIF_C16_CHILD=race_child), extra="locks=%s" % locks)
+            if st:
+                c.cov["client_race_reports"] = st.get("race_reports")
+                c.cov["client_race_reports_frp_owned"] = st.get("race_reports_frp_owned")
+                c.cov["client_race_reports_allowed_wrapper_phase"] = st.get("race_reports_allowed_wrapper_phase")
+                c.cov["client_race_reports_chan_close_vs_send"] = st.get("race_reports_chan_close_vs_send")
             if c.tier == "thorough":
-                # the frpc child under the race detector: listed tables are violations, other reports are recorded (see design/C16.md)
+                # the unweighted client barrage against the race child as well
                 st = c.run_driver("clientbarrage", 1500, shards=4, timeout=3000, env=dict(VERIF_C16_CHILD=race_child), extra="locks=%s" % locks)
                 if st:
-                    c.cov["client_race_reports"] = st.get("race_reports")
-                    c.cov["client_race_reports_frp_owned"] = st.get("race_reports_frp_owned")
-                    c.cov["client_race_reports_chan_close_vs_send"] = st.get("race_reports_chan_close_vs_send")
+                    c.cov["client_race_reports_plain_barrage"] = st.get("race_reports")
+                    c.cov["client_race_reports_plain_barrage_frp_owned"] = st.get("race_reports_frp_owned")
                 # the unweighted barrage against the race child (as before); runs last: it re-uses the case file names of the first barrage
                 st = c.run_driver("barrage", 1500, shards=4, timeout=3000, env=dict(VERIF_C16_CHILD=race_child), extra=locks)
                 if st:
@@ -106,10 +116,14 @@ def recipe(c: Check):
              "JSON frames, garbage, dropped control connections; every work / visitor connection the child opens gets a mutated StartWorkConn / "
              "NewVisitorConnResp and payload for its handler; every 12 messages a watchdog (child alive; the standing session, else a re-login "
              "within 12 s, bridges bytes through the plain tcp proxy to the local echo and back); directed scenarios (STUN answers x120, "
-             "ListenRandomPorts = MaxInt32, session end while datagrams pour into the sudp visitor); the frps barrage ends with 40 rounds of "
-             "udp proxies closed under datagram traffic. racebarrage: 120 barrage cases weighted towards same-run-id re-logins overlapping registrations "
+             "ListenRandomPorts = MaxInt32, session end while datagrams pour into the sudp visitor); 136 proxies and a lost control connection); the frps barrage ends with 40 rounds of "
+             "udp proxies closed under datagram traffic and 40 anonymous ssh connections to the ssh tunnel gateway (exec payloads with free "
+             "length fields, mutated frp command lines, tcpip-forward requests, unknown channel types, early ends; ssh watchdog: a well-formed "
+             "tunnel carries a user connection). racebarrage: 120 barrage cases weighted towards same-run-id re-logins overlapping registrations "
              "against a frps child built with -race; a report on a listed shared table, or any report with an access made by frp code other than "
-             "close-of-channel against send-on-channel, is a violation. distinct = distinct (kind, type, field values); non-trivial = every case",
+             "close-of-channel against send-on-channel, is a violation. clientrace: 280 client barrage steps in short epochs (re-logins while work "
+             "connection handlers are busy, overlapping udp work connections, orderly shutdown) against an frpc child built with -race, same rule "
+             "(one documented pair, Wrapper.Phase, is recorded only). distinct = distinct (kind, type, field values); non-trivial = every case",
         assumptions=["goroutine interleavings of the real process are sampled by the barrage, not enumerated",
                      "translator T4's lock-state analysis is syntactic; cross-checked in both tiers by the race detector where available",
                      "frpc's reconnect back-off (client/service.go) bounds the number of lost sessions per child to 8; every epoch uses a fresh child"])
